@@ -42,6 +42,9 @@ FailsConv(r) ==
     \o Clause("vec_pa_round_trip", VecPaRoundTrip(r))
     \o Clause("vec_length_is_great_circle", VecGreatCircle(r))
     \o Clause("vec_pa_is_bearing", VecBearing(r))
+    \o Clause("vec_from_integer_pixel_is_great_circle", IntVecGreatCircle(r))
+    \o Clause("vec_from_integer_pixel_is_bearing", IntVecBearing(r))
+    \o Clause("ell_from_integer_pixel_is_great_circle", IntEllGreatCircle(r))
     \o Clause("vec_sky2pix_great_circle_east_of_north", VecForward(r))
     \o Clause("vec_east_of_north", VecEastOfNorth(r))
     \o Clause("ell_major_round_trip", EllMajorRoundTrip(r))
